@@ -136,7 +136,8 @@ CHECKS = {
  "C09": dict(text="Partial. Theorems: C09_crash_in_read_keeps_every_wal_file (a death inside read_next / a batch read at any I/O boundary can move the position but never lose, alter or add an entry), "
              "C09_read_next_persists_only_its_own_position + C09_other_topics_untouched (the index after the crash is the old index with a prefix of the read's own <= 2 persists applied: other "
              "topics untouched, no later position can appear). Which entry the recovered position denotes after startup_chore is decided by correspondence + oracle: ~500 histories per quick run "
-             "with the process killed inside consuming reads at every index-persist boundary (tmp write, rename), StrictlyAtOnce and AtLeastOnce{1..8}, sealed and tail positions.",
+             "with the process killed inside consuming reads at every index-persist boundary (tmp write, rename), StrictlyAtOnce and AtLeastOnce{1..8}, sealed and tail positions. "
+             "AtLeastOnce bound at the level of the persist counter: C09_alo_counter_bounded, C09_alo_persists_every_n_reads (among any persist_every consecutive consuming read_next calls one persists).",
              note=BASE_NOTE + "Not decided: the AtLeastOnce redelivery bound (persist_every) - the oracle only checks that nothing is skipped. False in the regions of the open findings "
              "emptyBlockAllocated, scanStopsAtEmptyBlock, cursorsNotStableAcrossDeletion, clockRegressionReordersFiles. Same crash model as C07.",
              tech="Lean 4 proof (index-persist log of the read path; frame lemmas) + crash-point correspondence (real _exit at index persists) + oracle", ref="§6 C09"),
